@@ -342,3 +342,47 @@ pub fn is_nontrivial_c01(classes: &[&'static str]) -> bool {
         )
     })
 }
+
+/// Capture-saturated position: both kings tucked into opposite corners behind their own
+/// pieces (so nobody is in check), 5..9 queens and the full set of other pieces per side on
+/// random squares.  Legal material (queens <= 1 + 8 promotions, no pawns), unusual but valid;
+/// the engine's capture-only quiescence has an enormous tree here, so a search only ends in
+/// time if the limits and the stop flag are polled inside it.
+pub fn heavy_pos(e: &mut Entropy) -> Option<Pos> {
+    let mut p = Pos::empty();
+    let flip = e.pick(2) == 1;
+    let (wk, wshield, bk, bshield, w_no_knight, b_no_knight): (usize, [usize; 3], usize, [usize; 3], [usize; 2], [usize; 2]) = if flip {
+        (7, [6, 14, 15], 56, [48, 49, 57], [13, 22], [41, 50])
+    } else {
+        (0, [1, 8, 9], 63, [54, 55, 62], [10, 17], [46, 53])
+    };
+    p.sq[wk] = o::mk(true, o::K);
+    p.sq[bk] = o::mk(false, o::K);
+    for (i, &s) in wshield.iter().enumerate() {
+        p.sq[s] = o::mk(true, [o::R, o::B, o::N][i]);
+    }
+    for (i, &s) in bshield.iter().enumerate() {
+        p.sq[s] = o::mk(false, [o::R, o::B, o::N][i]);
+    }
+    for white in [true, false] {
+        let nq = 5 + e.pick(5);
+        let mut pieces = vec![o::Q; nq];
+        pieces.extend([o::R, o::B, o::N]);
+        for t in pieces {
+            let forbidden: &[usize] = if white { &b_no_knight } else { &w_no_knight };
+            let cands: Vec<usize> = (0..64).filter(|&s| p.sq[s] == 0 && !(t == o::N && forbidden.contains(&s))).collect();
+            if cands.is_empty() {
+                break;
+            }
+            let s = cands[e.pick(cands.len())];
+            p.sq[s] = o::mk(white, t);
+        }
+    }
+    p.wtm = e.pick(2) == 0;
+    p.hmc = 0;
+    p.fmn = 30 + e.pick(40) as u32;
+    if p.is_valid_start().is_err() || p.in_check(p.wtm) || p.legal_moves().is_empty() {
+        return None;
+    }
+    Some(p)
+}
